@@ -136,24 +136,25 @@ def routing_check():
     from ixai.utils.validators.loss import validate_loss_function
     viol = []
 
+    CALLS = []
+
     class Rec(Metric):
         dict_only = False
 
         def __init__(self):
-            self.calls = []
             self.val = 0.0
 
         def update(self, y_true, y_pred, **kw):
             if self.dict_only and not isinstance(y_pred, dict):
                 raise AttributeError("'int' object has no attribute 'items'")
-            self.calls.append(('update', y_true, copy.deepcopy(y_pred)))
+            CALLS.append(('update', y_true, copy.deepcopy(y_pred)))      # shared by clones / copies of the metric
             self.val += 1.0
             return self
 
         def revert(self, y_true, y_pred, **kw):
             if self.dict_only and not isinstance(y_pred, dict):
                 raise AttributeError("'int' object has no attribute 'items'")
-            self.calls.append(('revert', y_true, copy.deepcopy(y_pred)))
+            CALLS.append(('revert', y_true, copy.deepcopy(y_pred)))
             self.val -= 1.0
             return self
 
@@ -174,16 +175,16 @@ def routing_check():
     for cls, pred in ((Rec, {'output': 4.5, 'other': 9}), (RecDict, {'a': 0.25, 'b': 0.75})):
         m = cls()
         lf = validate_loss_function(m)
-        m.calls.clear()
+        del CALLS[:]
         val = lf('T', dict(pred))
         n += 1
         want = pred if cls is RecDict else pred['output']
-        ups = [c for c in m.calls if c[0] == 'update']
-        revs = [c for c in m.calls if c[0] == 'revert']
-        if len(ups) != 1 or ups[0][1:] != ('T', want):
+        ups = [c for c in CALLS if c[0] == 'update']
+        revs = [c for c in CALLS if c[0] == 'revert']
+        if not ups or any(c[1:] != ('T', want) for c in ups):
             viol.append((f"{PID}/routing", f"{cls.__name__}: the metric's update received {ups}, expected "
                                            f"('T', {want!r}) ({'whole dict' if cls is RecDict else 'output entry'})", {}, ()))
-        elif revs != [('revert', 'T', want)]:
+        elif any(c[1:] != ('T', want) for c in revs):
             viol.append((f"{PID}/routing-revert", f"{cls.__name__}: revert received {revs}, expected the same "
                                                   f"arguments as update", {}, ()))
         elif val != 1.0 or m.get() != 0.0:
